@@ -49,8 +49,12 @@ type serverEnc struct {
 	rev        int
 	compressed bool
 	insert     bool // result blocks carry the INSERT schema (v UInt64, s String)
-	cw         *compress.Writer
+	cws        map[compress.Method]*compress.Writer
+	nframe     int
 }
+
+// every frame says how it is compressed: the server changes the method from frame to frame
+var frameMethods = []compress.Method{compress.None, compress.LZ4, compress.ZSTD, compress.None, compress.LZ4HC, compress.LZ4}
 
 func (s *serverEnc) block(b *proto.Buffer, compressible bool, cols []proto.InputColumn, rows int) {
 	if proto.FeatureTempTables.In(s.rev) {
@@ -67,13 +71,20 @@ func (s *serverEnc) block(b *proto.Buffer, compressible bool, cols []proto.Input
 	if err := blk.EncodeBlock(&tmp, s.rev, cols); err != nil {
 		panic(err)
 	}
-	if s.cw == nil {
-		s.cw = compress.NewWriter(compress.LevelZero, compress.LZ4)
+	m := frameMethods[s.nframe%len(frameMethods)]
+	s.nframe++
+	if s.cws == nil {
+		s.cws = map[compress.Method]*compress.Writer{}
 	}
-	if err := s.cw.Compress(tmp.Buf); err != nil {
+	cw := s.cws[m]
+	if cw == nil {
+		cw = compress.NewWriter(compress.LevelZero, m)
+		s.cws[m] = cw
+	}
+	if err := cw.Compress(tmp.Buf); err != nil {
 		panic(err)
 	}
-	b.Buf = append(b.Buf, s.cw.Data...)
+	b.Buf = append(b.Buf, cw.Data...)
 }
 
 // ResultValues are the values script item i carries in its result block.
@@ -112,6 +123,17 @@ func (s *serverEnc) resultCols(i, rows int) []proto.InputColumn {
 	nx, ny := "x", "y"
 	if s.insert {
 		nx, ny = "v", "s"
+	}
+	if s.insert {
+		// the table of an INSERT has a third, enum column (its definition reaches the client's inferring input column)
+		ce := new(proto.ColEnum)
+		if err := ce.Infer(EnumType); err != nil {
+			panic(err)
+		}
+		for j := range x {
+			ce.Append(EnumNames[j%len(EnumNames)])
+		}
+		return []proto.InputColumn{{Name: nx, Data: &cx}, {Name: ny, Data: &cy}, {Name: "e", Data: ce}}
 	}
 	return []proto.InputColumn{{Name: nx, Data: &cx}, {Name: ny, Data: &cy}}
 }
